@@ -248,7 +248,7 @@ pub fn check_quad(cfg: &Cfg, mt: Mt, shared: bool, q: [&Bt; 4]) -> (Vec<Violatio
     let name = if shared { format!("{}-shared", mt.name()) } else { mt.name().to_string() };
     let empty = Bt::new();
     let res = catch(|| {
-        let mut r = rig::build(Op::Merge, mt, shared, false);
+        let mut r = rig::build(Op::Merge, mt, rig::Opts { shared, ..Default::default() });
         r.set(0, q[0]);
         r.set(1, q[1]);
         r.observe();
